@@ -106,6 +106,38 @@ CLAIMED['C02'] = dict(
           'step, CACGMM.log_likelihood compared inside Coq with the model.'),
     design='6/C02', technique='Coq proof over Reals + per-step evaluation of the M-step hypothesis on recorded EM trajectories')
 
+CLAIMED['C19'] = dict(
+    text=('Theorems over the real-number instance of the Gallina model of si_sdr, get_snr/set_snr, input_sxr and output_sxr, for '
+          'every T, K, sensor/output count and all real signals: defining formula with alpha = <s,s_hat>/<s,s>, the unique '
+          'minimiser of |s_hat - a s|^2; invariance of SI-SDR to non-zero rescaling of estimate and of reference; 1/SDR = 1/SIR + '
+          '1/SNR and SDR <= min(SIR, SNR) (linear and dB) for both functions; invariance to a common rescaling (all averaging '
+          'options); scaling the images by c multiplies SNR by c^2 (exactly +20 log10 c in dB) and leaves SIR unchanged; the output '
+          'selection enumerates exactly the injective selections, maximises the captured power, is unchanged by positive scaling '
+          'and, for a unique maximiser, follows any renaming of the outputs; set_snr then get_snr returns the requested SNR; the '
+          'tuple/dict decision table as a function of the truth test applied to return_dict (positive for both functions since the '
+          'fix of output_sxr; the former `is True` test is kept as a _refuted theorem). Tied to /repo on every run: dB values of '
+          'si_sdr / input_sxr / output_sxr (all options, K 1..4, 1..5 sensors/outputs, T 8..4096, exactly tied outputs), get_snr, '
+          'set_snr and the kind of the returned value are compared inside Coq (PrimFloat, log10 via lnF) with the model; independent '
+          'NumPy predicates (formulas, invariances over scales 1e-6..1e6, brute-force selection, every permutation of the outputs, '
+          'per-leading-index independence, inputs untouched) give the failing input. Not proved: binary64 rounding, leading-index '
+          'independence and purity (predicates).'),
+    design='6/C19', technique='Coq proof over Reals + in-Coq differential correspondence')
+CLAIMED['C18'] = dict(
+    text=('Theorems over the real-number instance (true division) of the per-point / per-group Gallina model of the oracle masks: '
+          'ideal binary mask one-hot at the first source of maximal sensor-pooled power; Wiener-like and ideal ratio masks in [0,1] '
+          'with sum P/(P+eps); ideal complex mask times the source sum reproduces each source; the phase-sensitive mask equals '
+          'Re(complex mask) |y|/(|y|+eps); all-zero input gives 0 with denominators exactly eps; quantile mask levels 1/2 +- w/2 '
+          "exactly above/below numpy's linear percentile (modelled exactly: virtual index, floor, switching lerp), which lies "
+          'between the order statistics floor(v), floor(v)+1 of a sorted permutation of the group; Lorenz mask levels exactly at the '
+          'points stronger than the weakest listed point whose cumulative share of the descending powers is below the fraction; '
+          'numpy.moveaxis order algorithm: move to the tmp axes and back is the identity for every rank <= 6 (exhaustive inside Coq; '
+          '_partial: higher ranks; equivariance of the whole functions is a predicate, not a theorem). Tied to /repo on every run: '
+          'points / threshold groups of every mask function on tensors with 1..4 axes, sizes 1..6, all source_axis / sensor_axis '
+          'pairs, keepdims, ties, silent points, zero tensors, addressed by the documented layout, compared inside Coq (one-hot '
+          'entries and levels exactly, real-valued masks within 2^-30), moveaxis orders exactly; independent NumPy predicates '
+          '(identities, equivariance under transposition, finiteness, inputs untouched) give the failing input.'),
+    design='6/C18', technique='Coq proof over Reals + exhaustive discrete evaluation in Coq + in-Coq differential correspondence')
+
 NOT_YET = {}
 
 
